@@ -56,11 +56,18 @@ class SolverAnalysis:
         return S, [r for r in res if r.kind == "return"]
 
     def fault_obs(self, rule="R-WELLDEF"):
-        """a path that divides by an identically zero quantity is a definite defect"""
+        """a path that divides by an identically zero quantity is a definite defect; so is a solver that raises on every path
+        although every test on the way was decided (no admissible argument gets an answer)"""
         site = "src/bldfm/solver.py::steady_state_transport_solver"
+        out = []
+        for key, (S, res) in self.runs.items():
+            if res and all(r.kind == "raise" for r in res) and not any(d[0].startswith("unknown test") for r in res for d in r.path):
+                out.append(req_ob(rule, site, "the solver returns for admissible arguments", False,
+                                  detail="every path raises (footprint=%s analytic=%s %s mode): %s" % (key[0], key[1], key[2], "; ".join(sorted({str(r.raise_desc)[:80] for r in res}))[:240]), key={"clause": "returns"}))
+                break
         if not self.faults:
-            return [req_ob(rule, site, "no path divides by an identically zero quantity", True, nontrivial=False)]
-        return [req_ob(rule, site, "no path divides by an identically zero quantity", False, detail=f) for f in self.faults]
+            return out + [req_ob(rule, site, "no path divides by an identically zero quantity", True, nontrivial=False)]
+        return out + [req_ob(rule, site, "no path divides by an identically zero quantity", False, detail=f) for f in self.faults]
 
 
 # --------------------------------------------------------------------------
